@@ -14,7 +14,8 @@ GenStep ==
   \/ \E s \in Subs : Initialise(s) /\ hist' = Append(hist, Ev("init", s, s))
   \/ \E s \in Subs : Write(s) /\ hist' = Append(hist, Ev("write", s, s))
   \/ \E s \in Subs : Wait(s) /\ hist' = Append(hist, Ev("wait", s, s))
-  \/ \E s \in Subs : Answer(s) /\ hist' = Append(hist, Ev("answer", ReaderProc, s))
+  \/ \E s \in Subs : AnswerTake(s) /\ hist' = Append(hist, Ev("atake", ReaderProc, s))
+  \/ AnswerComplete /\ hist' = Append(hist, Ev("acomp", ReaderProc, taken))
   \/ \E s \in Subs : DeliverFind(s) /\ hist' = Append(hist, Ev("dfind", ReaderProc, s))
   \/ DeliverSend /\ hist' = Append(hist, Ev("dsend", ReaderProc, found))
   \/ Lose /\ hist' = Append(hist, Ev("lose", ReaderProc, 0))
